@@ -26,9 +26,9 @@ TEXT = {
             "Whole files, BGZF layer, text parsing and IndexMap-heavy paths are outside the bound; sizes per obligation.", TECH_KANI),
     "C05": ("§5 C05", "Solver-decided per-field encoder/decoder inverses of the BAM record codec over all values of each field (positions, flags, MAPQ, TLEN, CIGAR ops, bases, qualities, aux scalars), CIGAR-overflow rule, region_to_bin == SAM-spec reg2bin for all 1<=s<=e<=2^29, validate()=>lazy accessors in range on small symbolic records.",
             "Whole-record composition only for small concrete layouts; records larger than the stated sizes and header dictionary lookups outside the bound.", TECH_KANI),
-    "C06": ("§5 C06", "Narrow, solver-decided byte-level kernels of the SAM text codec: quality text codec inverse, writer/reader per-byte validity predicates and tables agree for every byte, aux integer width selection is value preserving.",
+    "C06": ("§9 C06", "Narrow, solver-decided: the SAM quality-score text codec only (writer accepts exactly scores <=93 and emits score+33; reader accepts exactly the printable range and returns byte-33 => inverse on everything writable, for all byte values).",
             "Headers, floats, whole-line tokenisation and SAM<->BAM record-set equivalence are outside (lexical-core / String / IndexMap paths not encodable within reach).", TECH_KANI),
-    "C07": ("§5 C07", "Narrow, solver-decided CRAM kernels: block framing write->read inverse with exact CRC-32, substitution-matrix and flag conversions inverse on all values, feature<->CIGAR/bases reconstruction on small reads where it fits.",
+    "C07": ("§9 C07", "Narrow, solver-decided CRAM kernels: block framing write->read inverse with an exact CRC-32 model (layout, declared sizes, corruption detected) and ITF8 size accounting == bytes written for all i32.",
             "Whole containers/slices, data-series interleaving, external codecs in situ are outside the bound.", TECH_KANI),
     "C08": ("§5 C08", "Solver-decided: ITF8 all i32, LTF8 all i64, uint7 all u32 round trips with exact encoded length and spec byte layout; rANS 4x8 and Nx16 symbol-step inverse for all states/frequencies (MIR->SMT, cvc5) and renormalisation inverse (Kani); frequency normalisation/serialisation on small tables.",
             "Whole-stream adaptive codecs (AAC, fqzcomp, name tokenizer) and FFI codecs are outside; the rANS interleave/induction over the stream is an argument.", TECH_BOTH),
@@ -48,15 +48,17 @@ TEXT = {
             "Only inputs up to the per-obligation size; allocation size, stack depth and wall-clock are not modelled.", TECH_KANI),
     "C17": ("§5 C17", "Solver-decided: reg2bin(feature) is in the closed-form bin set of every intersecting region for ALL interval pairs at (14,5) and other geometries; the real reg2bins equals the closed form at small concrete geometries; parent chain; chunk-list soundness (shared with C04); index leaf writer->reader inverses.",
             "Depth-5 reg2bins is tied to the closed form only at small depth (loop body independent of depth: argument); multi-bin index files end-to-end outside.", TECH_KANI),
-    "C18": ("§5 C18", "Narrow, solver-decided escaping kernels: GFF3 percent layer per column and GTF quote/backslash layer are inverse on all short strings and emit no reserved byte; BED field-bounds index vs naive splitter.",
-            "Record-level round trips, attribute ordering and numeric columns outside.", TECH_KANI),
-    "C19": ("§5 C19", "Narrow, solver-decided CRAM query/index kernels: the query filter keeps a record iff it is on the queried reference and intersects (symbolic ids/positions), ReferenceSequenceContext::update inductive step, slice length from landmarks.",
+    "C18": ("§9 C18", "Narrow, solver-decided: the GTF attribute-value quote/backslash escaping layer only (writer output == spec form for every 2-byte value; reader parse_field + escape_decode invert it for every 2-byte value).",
+            "GFF3 percent layer, BED field bounds, record-level round trips, attribute ordering and numeric columns outside.", TECH_KANI),
+    "C19": ("§9 C19", "Narrow, solver-decided CRAM query/index kernels: the real Query state machine yields a pending record iff it is on the queried reference and intersects (symbolic ids/positions), ReferenceSequenceContext::update one-step fold and raw-triple conversion.",
             "Container walking, slice decoding and CRAI text I/O outside.", TECH_KANI),
     "C20": ("§5 C20", "Narrow, solver-decided magic-number kernels of format autodetection on a symbolic window, incl. no-confusion for SAM writer output.",
             "Compressed branch (flate2) and record-preserving conversions outside.", TECH_KANI),
 }
 
 NA = {
+    "C09": "Not applicable as built: the VCF escaping layer sits on the external percent_encoding crate and Cow<str>/String, typed INFO/FORMAT parsing on header IndexMaps; no solver obligation over the real code was brought under the time/memory budget, and deciding unrelated kernels would not speak to this property. See DESIGN.md §8.3, §9.",
+
     "C03": "Quantifier is over thread schedules of rayon tasks/crossbeam channels; Kani/CBMC do not model threads or channels and no solver-based engine here executes the real multithreaded code (a hand-written Promela/TLA+ model would be a different technique). See DESIGN.md §5 C03.",
     "C16": "Async BGZF/format I/O needs a tokio runtime, spawn_blocking and futures combinators; Kani cannot execute them and the quantifier is over poll schedules. See DESIGN.md §5 C16.",
 }
